@@ -637,6 +637,7 @@ theorem segLoadData_eq (c : Cls) (tr : List Trans) (ls : LoadSt) (g : Seg) :
          ({ st := mergeFlags (segRead ls.st (dataOff tr g.offset) g.filesz).1 ls.st,
             allocs := ls.allocs ++ [(sec64_load_data_alloc g.filesz).toNat] },
           { g with data := none }, false)) := by
+  rw [LoadTie.segLoadData_flat]
   cases c <;> rfl
 
 theorem LoadedSeg.of_same {tr img} {g g' : Seg} (h : LoadedSeg tr g img)
@@ -756,8 +757,11 @@ theorem segLoad_eq (c : Cls) (enc : Enc) (tr : List Trans) (ls : LoadSt) (hdrOff
       if (!(isLazy || (segHdr c enc tr ls.st hdrOff isLazy).isLoaded)) = true then
         segLoadData c tr { ls with st := (hdrRead tr ls.st hdrOff (phdrSize c)).1 }
           (segHdr c enc tr ls.st hdrOff isLazy)
-      else ({ ls with st := (hdrRead tr ls.st hdrOff (phdrSize c)).1 }, segHdr c enc tr ls.st hdrOff isLazy, true) := by
-  -- `if ( !( is_lazy || is_loaded ) )` is the generated condition of either instantiation
+      else ({ ls with st := (hdrRead tr ls.st hdrOff (phdrSize c)).1 }, segHdr c enc tr ls.st hdrOff isLazy,
+            (segHdr c enc tr ls.st hdrOff isLazy).isLoaded ||
+              segRangeOk c tr (segHdr c enc tr ls.st hdrOff isLazy)) := by
+  -- `if ( !( is_lazy || is_loaded ) )` and `return is_loaded || is_file_range_valid()` are the generated
+  -- expressions of either instantiation
   cases c <;> rfl
 
 /-- a program header of which nothing was read is the `PT_NULL` one -/
@@ -1328,6 +1332,71 @@ theorem segLoadData_pure (c : Cls) (ls : LoadSt) (g : Seg) (img : Bytes) (hd : l
   rw [if_pos (by simp [e2]), e1, hd]
   refine ⟨rfl, ?_⟩
   simp [mergeFlags, e2]
+
+/-- without a translation table `is_file_range_valid()` is the result of the pure `load_data()` -/
+theorem segRangeOk_eq_pure (c : Cls) (g : Seg) (img : Bytes) :
+    segRangeOk c [] g = (segLoadDataPure img g).2 := by
+  rw [LoadTie.segRangeOk_hand]
+  unfold segLoadDataPure
+  have e : BitVec.ofInt 64 (trApply [] g.offset.toInt) = g.offset := dataOff_nil g.offset
+  rw [e]
+  repeat' split
+  all_goals rfl
+
+/-- **`load_data()` returns what `is_file_range_valid()` returns** (any translation table, stream in any
+    position / error state, input shorter than 2^63): on a segment object as `load` creates it the range
+    tests are the only way `load_data()` fails — once they pass, the isolated read is inside the stream
+    and complete.  This is what makes the lazy `load` answer exactly as the eager one. -/
+theorem segLoadData_ok_eq_rangeOk (c : Cls) (tr : List Trans) (ls : LoadSt) (g : Seg) (img : Bytes)
+    (hd : ls.st.data = img) (hg : LoadedSeg tr g img) (hlen : img.length < 9223372036854775808) :
+    (segLoadData c tr ls g).2.2 = segRangeOk c tr g := by
+  rw [segLoadData_eq, LoadTie.segRangeOk_hand]
+  show _ = (if seg64_load_data_skip g.stype g.filesz = true then true else
+    if sec64_load_data_off_gt (dataOff tr g.offset) g.streamSize = true then false else
+    if sec64_load_data_size_gt g.filesz g.streamSize (dataOff tr g.offset) = true then false else
+    if sec64_load_data_sizet g.filesz = true then false else true)
+  by_cases h0 : seg64_load_data_skip g.stype g.filesz = true
+  · rw [if_pos h0, if_pos h0]
+  rw [if_neg h0, if_neg h0]
+  by_cases h1 : sec64_load_data_off_gt (dataOff tr g.offset) g.streamSize = true
+  · rw [if_pos h1, if_pos h1]
+  rw [if_neg h1, if_neg h1]
+  by_cases h2 : sec64_load_data_size_gt g.filesz g.streamSize (dataOff tr g.offset) = true
+  · rw [if_pos h2, if_pos h2]
+  rw [if_neg h2, if_neg h2]
+  by_cases h4 : sec64_load_data_sizet g.filesz = true
+  · rw [if_pos h4, if_pos h4]
+  rw [if_neg h4, if_neg h4]
+  have hle := g_size_gt_false (by simpa using h2) (g_off_gt_false (by simpa using h1))
+  have hss : g.streamSize = BitVec.ofNat 64 img.length := by
+    rcases hg.ss with hss | ⟨-, hn, -⟩
+    · exact hss
+    · exact absurd hn h0
+  rw [hss, toNat_ofNat_len (by omega)] at hle
+  obtain ⟨-, e2⟩ := segRead_inrange ls.st (dataOff tr g.offset) g.filesz
+    (toInt_nonneg_of_lt (by omega)) (toInt_nonneg_of_lt (by omega)) (by rw [hd]; exact hle)
+  rw [if_pos (by simp [e2])]
+
+/-- … in particular for the two modes of `segment_impl::load` on the same stream: **the lazy load of a
+    program header returns what the eager load returns** -/
+theorem segLoad_ok_lazy_eq_eager (c : Cls) (enc : Enc) (tr : List Trans) (ls : LoadSt) (hdrOff : Int)
+    (hlen : ls.st.data.length < 9223372036854775808) :
+    (segLoad c enc tr ls hdrOff true).2.2 = (segLoad c enc tr ls hdrOff false).2.2 := by
+  rw [segLoad_eq, segLoad_eq]
+  have hl : (segHdr c enc tr ls.st hdrOff false).isLoaded = false := by simp [segHdr]
+  have hl' : (segHdr c enc tr ls.st hdrOff true).isLoaded = false := by simp [segHdr]
+  simp only [hl, hl', Bool.or_false, Bool.not_true, Bool.not_false, Bool.false_eq_true, if_false, if_true,
+    Bool.false_or]
+  rw [segLoadData_ok_eq_rangeOk c tr _ _ ls.st.data (by simp)
+    (segHdr_inv c enc tr ls.st hdrOff false ls.st.data rfl) hlen]
+  -- the range test does not look at the `is_lazy` flag
+  have e : ∀ l, segRangeOk c tr (segHdr c enc tr ls.st hdrOff l) =
+      segRangeOk c tr { segHdr c enc tr ls.st hdrOff l with isLazy := false } := fun l => by
+    rw [LoadTie.segRangeOk_hand, LoadTie.segRangeOk_hand]
+  rw [e true, e false]
+  congr 1
+  unfold segHdr
+  cases c <;> rfl
 
 theorem segLoadData_fail_mono (c : Cls) (tr : List Trans) (ls : LoadSt) (g : Seg) (h : ls.st.fail = true) :
     (segLoadData c tr ls g).1.st.fail = true := by
